@@ -26,6 +26,9 @@ ASSUMPTIONS = ["CPython ast", "arch.dis() returns the single-instruction decodin
 
 
 def run(ck):
+    ck.rule("R6", "no loop walks a live view of a container of the graph while removing from that container", floor=15)
+    from rules.c30 import live_iteration_rules
+    live_iteration_rules(ck, "R6", [("miasm/core/asmblock.py", "AsmCFG")])
     m = ck.repo.mod(REL)
     ck.rule("R1", "every exit of the decoding loop records the block's continuation (or leaves a bad block)", floor=6)
     ck.rule("R2", "job_done is updated with the offset of each appended instruction, before it is appended", floor=3)
